@@ -17,10 +17,24 @@ rm -rf "$CORPUS"; mkdir -p "$CORPUS" "$ART"
 head -c 96 /dev/zero > "$CORPUS/zeros"; head -c 96 /dev/zero | tr '\0' '\377' > "$CORPUS/ones"; python3 -c "import sys;sys.stdout.buffer.write(bytes(range(200)))" > "$CORPUS/count"
 RUNS="${VERIF_FUZZ_RUNS:-400000}"
 [ "$SEED" = "0" ] && LSEED=1 || LSEED="$SEED"
-RUSTFLAGS="--cfg cdshealpix_verif" cargo +nightly fuzz run "$TARGET" "$CORPUS" -- -runs="$RUNS" -seed="$LSEED" -len_control=0 -max_len=400 -artifact_prefix="$ART/" -print_final_stats=1 >"$ROOT/.logs/fuzz-run-$TARGET-$PROP.log" 2>&1
-rc=$?
-LOG="$ROOT/.logs/fuzz-run-$TARGET-$PROP.log"
-execs=$(grep -o 'stat::number_of_executed_units: *[0-9]*' "$LOG" | grep -o '[0-9]*$' | tail -1); execs=${execs:-0}
+JOBS="${VERIF_FUZZ_JOBS:-8}"
+BIN="$ROOT/harness/fuzz/target/x86_64-unknown-linux-gnu/release/$TARGET"
+[ -x "$BIN" ] || { echo "fuzz binary $BIN missing after the build" >&2; exit 2; }
+# J independent libFuzzer processes (seeds LSEED*1000+k) sharing one corpus directory (each reloads the
+# units found by the others); a crash of any of them ends the campaign of that job only
+LOG="$ROOT/.logs/fuzz-run-$TARGET-$PROP.log"; : > "$LOG"
+pids=""
+for k in $(seq 1 "$JOBS"); do
+  ASAN_OPTIONS=detect_odr_violation=0 "$BIN" "$CORPUS" -runs="$RUNS" -seed="$(( LSEED * 1000 + k ))" -len_control=0 -max_len=400 -reload=1 -artifact_prefix="$ART/" -print_final_stats=1 >"$LOG.$k" 2>&1 &
+  pids="$pids $!"
+done
+rc=0
+for p in $pids; do wait "$p" || rc=1; done
+execs=0
+for k in $(seq 1 "$JOBS"); do
+  e=$(grep -o 'stat::number_of_executed_units: *[0-9]*' "$LOG.$k" | grep -o '[0-9]*$' | tail -1); execs=$(( execs + ${e:-0} ))
+  { echo "== job $k"; grep -m3 "violation\|panicked" "$LOG.$k"; tail -n 25 "$LOG.$k"; } >> "$LOG"; rm -f "$LOG.$k"
+done
 units=$(ls "$CORPUS" | wc -l)
 viol=0; crashfile=""
 if [ $rc -ne 0 ]; then
@@ -44,8 +58,8 @@ PY
 cat > "$PART" <<EOJ
 {"property_id":"$PROP","tier":"$TIER","seed":$SEED,"profile":"fuzz-$TARGET","evaluations":$execs,"distinct_nontrivial":$units,
  "distinct_nontrivial_is_lower_bound":false,"rule":"libFuzzer campaign on target $TARGET (bytes decoded into the structured case of the property, oracle inside the target, ASan + debug assertions); non-trivial = inputs kept in the corpus because they reached new coverage",
- "samples":$samples,"classes":{},"sections":[{"name":"libfuzzer:$TARGET","planned":$RUNS,"evaluations":$execs,"distinct_nontrivial":$units,"exhaustive":false,"wall_s":$(( $(date +%s) - t0 ))}],
- "exhaustive_subspaces":[],"known_findings_hit":{},"excluded_known":0,"metrics_max":{},"metrics_min":{},"violations":[],"notes":["libFuzzer -seed=$LSEED -runs=$RUNS: approximately reproducible only; the saved input is the reproducible unit"],"assumptions":[],"wall_s":$(( $(date +%s) - t0 ))}
+ "samples":$samples,"classes":{},"sections":[{"name":"libfuzzer:$TARGET","planned":$(( RUNS * JOBS )),"evaluations":$execs,"distinct_nontrivial":$units,"exhaustive":false,"wall_s":$(( $(date +%s) - t0 ))}],
+ "exhaustive_subspaces":[],"known_findings_hit":{},"excluded_known":0,"metrics_max":{},"metrics_min":{},"violations":[],"notes":["$JOBS libFuzzer processes sharing a corpus, -seed=$LSEED*1000+k -runs=$RUNS each: approximately reproducible only; the saved input is the reproducible unit"],"assumptions":[],"wall_s":$(( $(date +%s) - t0 ))}
 EOJ
 [ $viol -eq 1 ] && exit 1
 exit 0
